@@ -407,6 +407,7 @@ func runFuzz(t *simrt.Tape, keep bool) simrt.Outcome {
 		// (the measured figure goes into the parameters, not into the text: it differs by a few bytes from one
 		// replay to the next)
 		limit := 64<<20 + 256*uint64(len(data))
+		tags["measured"] = "bytes-allocated"
 		r.fail("C16", "C16.memory", tags, "%s parser allocated more than %d bytes (64 MiB + 256 per input byte) for a %d byte input (%s)", parser, limit, len(data), origin)
 		if r.viol != nil && r.viol.Class == "C16.memory" {
 			r.viol.Params = map[string]float64{"alloc_bytes": float64(alloc), "input_bytes": float64(len(data)), "over_threshold_ratio": float64(alloc) / float64(limit)}
